@@ -10,7 +10,7 @@ RULE = (
     "empty / list attribute values and custom separators; distinct = hash of the configuration; trivial = single row"
 )
 ASSUMPTIONS = ["decoder labels are unique single-line strings that do not start with a style segment", "custom styles use three distinct strings of equal width"]
-GATES = ["mon.C09.rows", "mon.C09.decoder", "mon.C09.text", "mon.C09.repr", "C09.depth_ge_4", "C09.last_under_nonlast", "C09.childiter_changes_last", "C09.multiline", "C09.empty_value", "C09.maxlevel_cuts"]
+GATES = ["mon.C09.rows", "mon.C09.decoder", "mon.C09.text", "mon.C09.repr", "C09.depth_ge_4", "C09.last_under_nonlast", "C09.childiter_changes_last", "C09.multiline", "C09.empty_value", "C09.maxlevel_cuts", "C09.abandoned_iteration"]
 
 
 def plan(tier, seed, jobs):
@@ -143,6 +143,31 @@ def check_config(ctx, lib, nodes, idmap, par, ch, s, st, ci, ml, case, names):
     if again != obs:
         ctx.violation("C09/rows/re-iteration", "reference-rows", cfg, expected=obs[:20], observed=again[:20])
         return False
+    # abandoned iterations (early stop, exception from a user callback at some row) leave nothing behind in the object
+    if len(exp) >= 2:
+        ctx.count("C09.abandoned_iteration")
+        it = iter(rt)
+        for _ in range(1 + len(exp) // 2):
+            next(it)
+        del it
+        target = exp[-1][2]
+
+        class Boom(Exception):
+            pass
+
+        def sel(node):
+            if idmap[id(node)] == target:
+                raise Boom()
+            return "x"
+
+        try:
+            rt.by_attr(sel)
+        except Boom:
+            pass
+        after = [(r[0], r[1], idmap.get(id(r[2]), "?")) for r in rt]
+        if after != obs:
+            ctx.violation("C09/rows/after-abandoned-iteration", "reference-rows", cfg, expected=obs[:20], observed=after[:20])
+            return False
     # decoder on by_attr text
     ctx.count("mon.C09.decoder")
     text = rt.by_attr("name")
@@ -237,7 +262,7 @@ def check_text(ctx, lib, rng, case_seed):
     # reprs of Node / AnyNode
     sep = rng.choice(["/", "|", "::"])
     NodeS = type("NodeS", (Node,), {"separator": sep})
-    names = [rng.choice(["a", "b b", "q'uote", 7, 2.5, None, "x\ny", "é"]) for _ in range(n)]
+    names = [rng.choice(["a", "b b", "q'uote", 7, 2.5, None, "x\ny", "é", ("x",), (), ("a", "b"), b"by", frozenset([1])]) for _ in range(n)]
     attrs = [gen.random_attrs(rng, json_only=False, identifiers_only=True, maxkeys=4) for _ in range(n)]
     nn = [NodeS(names[i], **attrs[i]) for i in range(n)]
     aa = [AnyNode(**attrs[i]) for i in range(n)]
